@@ -717,7 +717,8 @@ fn c04(t: &[&str], out: &str) -> R {
         return Ok(false);
     }
     let (c, _, _) = parse_canon(out)?;
-    let lim = if perms && flips { ORBIT_LIMIT_NPN } else { ORBIT_LIMIT_P };
+    let deep = std::env::var("VERIF_DEEP").is_ok();
+    let lim = if perms && flips { ORBIT_LIMIT_NPN + if deep { 1 } else { 0 } } else { ORBIT_LIMIT_P };
     if f.n > lim {
         return Ok(false);
     }
@@ -772,6 +773,29 @@ fn c05(t: &[&str], out: &str) -> R {
             g.show(),
             c.show()
         ));
+    }
+    // the property singles out inputs that are already their own representative: canonize the
+    // representative itself and check that certificate too
+    if c != f {
+        let again = run_line(&format!("{} {} {}", t[0], t[1], c.show()));
+        let (c2, perm2, mask2) = parse_canon(&again)?;
+        let mut sorted2 = perm2.clone();
+        sorted2.sort();
+        if sorted2 != (0..n).collect::<Vec<_>>() || mask2 >> (n + 1) != 0 {
+            return Err(format!("{} on the representative {}: malformed certificate {:?} {:#x}", t[0], c.show(), perm2, mask2));
+        }
+        let g2 = apply_cert(&c, &perm2, mask2);
+        if g2 != c2 {
+            return Err(format!(
+                "{} on the already-canonical input {}: certificate (perm {:?}, mask {:#x}) maps it to {} but the result is {}",
+                t[0],
+                c.show(),
+                perm2,
+                mask2,
+                g2.show(),
+                c2.show()
+            ));
+        }
     }
     Ok(nontrivial(&f))
 }
